@@ -24,6 +24,7 @@ var repoRoot = func() string {
 	}
 	return "/repo"
 }()
+
 const modPath = "github.com/AliceO2Group/Control"
 
 // Config holds the bounds and switches of one harness entry.
@@ -44,7 +45,7 @@ type Config struct {
 	AtomicsVisible bool
 	DeadlockOK     bool
 	SleepSets      bool
-	SleepBound     bool // a sibling may sleep only if its representative schedule stays within the pre-emption bound (sched.go)
+	SleepBound     bool     // a sibling may sleep only if its representative schedule stays within the pre-emption bound (sched.go)
 	LazyArrive     bool     // a thread that completed a visible operation does not run on to its next one by itself: "arriving" there is a schedulable step (exposes windows in which a thread is not yet waiting: non-blocking sends, TryLock)
 	NoSched        []string // package-level mutexes ("pkgpath.var") whose uncontended Lock/Unlock are not scheduling points
 	Silence        []string
